@@ -911,6 +911,83 @@ pub fn configs(tier: &str) -> Vec<SysConfig> {
     v
 }
 
+
+/// Explicit-state BFS over the protocol model (c01model, no compaction): every canonical model
+/// state reachable within `depth` tokens is recorded with its shortest trace. The canonical
+/// form abstracts event identities into counts (per shard: memtable length, WAL logs and their
+/// lengths, writer position, L0 labels, and how many events would be visible 0 / 1 / >= 2 times
+/// after a restart). Returns (distinct model states, transitions, traces longer than `min_len`).
+pub fn model_guided_traces(cfg: &SysConfig, alphabet: &[Tok], depth: usize, min_len: usize) -> (usize, usize, Vec<Vec<Tok>>) {
+    use std::collections::VecDeque;
+    let cap = cfg.capacity();
+    let route = route_of(cfg);
+    let canon = |m: &Model, nk: i64| -> String {
+        let mut s = String::new();
+        for sh in &m.shards {
+            let wal: Vec<(u64, usize)> = sh.wal.iter().map(|(k, v)| (*k, v.len())).collect();
+            s.push_str(&format!("[{} {:?} {} {} {} {:?}]", sh.mem.len(), wal, sh.wal_cur, sh.wal_cnt, sh.alloc_l0, sh.l0));
+        }
+        let mut vis = [0usize; 3];
+        for k in 0..nk {
+            vis[m.visible_after_restart(k).min(2)] += 1;
+        }
+        s.push_str(&format!("{vis:?}"));
+        s
+    };
+    let apply = |m: &mut Model, nk: &mut i64, t: Tok| {
+        match t {
+            Tok::Sa | Tok::Sb => {
+                let e = if t == Tok::Sa { Ev { k: *nk, typ: "a".into(), ctx: "c0".into() } } else { Ev { k: *nk, typ: "b".into(), ctx: "c1".into() } };
+                *nk += 1;
+                m.store(&e);
+            }
+            Tok::Fill => {
+                for _ in 0..cap {
+                    let e = Ev { k: *nk, typ: "a".into(), ctx: "c0".into() };
+                    *nk += 1;
+                    m.store(&e);
+                }
+            }
+            Tok::Flush => {
+                m.flush_cmd();
+            }
+            Tok::Restart => {
+                m.flush_cmd();
+                m.restart();
+            }
+            Tok::Kill => m.restart(),
+            Tok::Compact => {}
+        }
+    };
+    let m0 = Model::new(cap, cfg.shards, route);
+    let mut seen: HashSet<String> = HashSet::new();
+    seen.insert(canon(&m0, 0));
+    let mut fr: VecDeque<(Model, i64, Vec<Tok>)> = VecDeque::new();
+    fr.push_back((m0, 0, vec![]));
+    let mut transitions = 0usize;
+    let mut traces = Vec::new();
+    while let Some((m, nk, h)) = fr.pop_front() {
+        if h.len() >= depth {
+            continue;
+        }
+        for t in alphabet.iter().copied().filter(|t| *t != Tok::Compact) {
+            transitions += 1;
+            let mut m2 = m.clone();
+            let mut nk2 = nk;
+            apply(&mut m2, &mut nk2, t);
+            if seen.insert(canon(&m2, nk2)) {
+                let mut h2 = h.clone();
+                h2.push(t);
+                if h2.len() > min_len {
+                    traces.push(h2.clone());
+                }
+                fr.push_back((m2, nk2, h2));
+            }
+        }
+    }
+    (seen.len(), transitions, traces)
+}
+
 /// Longer hand-picked histories (beyond the exhaustive depth) around the
 /// id-drift defects: L0 emptied by compaction, restarts, manual flushes.
 pub fn deep_histories() -> Vec<Vec<Tok>> {
@@ -961,6 +1038,19 @@ pub fn check(tier: &str) -> i32 {
             }
             work.push((cfg.clone(), h));
         }
+    }
+    // model-guided deep histories: the shortest trace to every canonical state of the protocol
+    // model beyond the exhaustive depth is replayed on the implementation (conformance: what
+    // the implementation shows must be what the specification or the model's listed defects say)
+    let (mdepth, mcap) = if tier == "quick" { (5usize, 60usize) } else { (8usize, 1500usize) };
+    let base_cfg = configs(tier)[0].clone();
+    let (model_states, model_transitions, mut mtraces) = model_guided_traces(&base_cfg, &[Sa, Fill, Flush, Restart, Kill], mdepth, depth);
+    let model_traces_total = mtraces.len();
+    // longest first: they reach the states the exhaustive part cannot
+    mtraces.sort_by_key(|h| std::cmp::Reverse(h.len()));
+    mtraces.truncate(mcap);
+    for h in &mtraces {
+        work.push((base_cfg.clone(), h.clone()));
     }
     // determinism canary: the first 8 executions are run twice and must agree
     let canary: Vec<(SysConfig, Vec<Tok>)> = work.iter().filter(|(_, h)| h.iter().any(|t| *t == Fill)).take(8).cloned().collect();
@@ -1073,6 +1163,7 @@ pub fn check(tier: &str) -> i32 {
             "work_items": work.len(),
             "determinism_canary_executions": canary.len() * 2,
             "unreproduced_observations": unreproduced.len(),
+            "model_guided": {"model_depth": mdepth, "distinct_model_states": model_states, "model_transitions": model_transitions, "traces_beyond_the_exhaustive_depth": model_traces_total, "traces_replayed_on_the_implementation": mtraces.len(), "cap": mcap},
             "buffered_wal_recovery_runs": st.buffered_recoveries,
             "buffered_wal_crash_points_with_an_allowed_suffix_loss": st.buffered_suffix_losses,
         }),
@@ -1083,6 +1174,7 @@ pub fn check(tier: &str) -> i32 {
             "single-threaded tokio runtime with paused clock; entropy and wall clock pinned by libc interposition".into(),
             "COUNT is taken with a predicate on a type-private field so that the C09 defect (in-memory aggregates ignore the event type) is not reported here".into(),
             "known findings are matched by the WAL-id/segment-id protocol model in c01model.rs; anything the model does not predict is a violation".into(),
+            "model-guided part: BFS over the protocol model (event identities abstracted into counts) gives the shortest trace to every canonical model state; traces longer than the exhaustive depth are replayed on the implementation (longest first, up to the stated cap) with every crash point of their last lifetime".into(),
         ],
         wall_s: t0.elapsed().as_secs_f64(),
         violations: violations.len() as i64,
